@@ -31,6 +31,8 @@ pub enum Op {
     FromBlocks(Vec<u64>),
     FromHexRaw(String),
     AllFunctionsNth(usize),
+    /// last / max item of a complete all_functions run consumed through adaptor `kind` (n <= 3 only)
+    AllFunctionsConsume(u8),
     FromInt(u64),
     /// Lut::from(&Sop / &Esop / &Soes) of a generated form (then converted to the family's type)
     FromSop(Vec<crate::sopx::CB>),
@@ -196,6 +198,16 @@ fn exec_inner(fam: Fam, n: usize, slots: &[T], st: &Step) -> (Outcome, Option<T>
             Some(t) => tab(t),
             None => (Outcome::ParseErr, None),
         },
+        Op::AllFunctionsConsume(kind) => {
+            if n > 3 {
+                (Outcome::ParseErr, None)
+            } else {
+                match f.all_functions_consume(n, *kind % 6).1 {
+                    Some(t) => tab(t),
+                    None => (Outcome::ParseErr, None),
+                }
+            }
+        }
         Op::FromInt(v) => match f.from_int(n, *v) {
             Some(t) => tab(t),
             None => (Outcome::Opaque, None),
@@ -519,6 +531,10 @@ pub fn arb_op(n: usize, fam: Fam, o: OpOptions) -> BoxedStrategy<Op> {
     v.push((1, crate::sopx::arb_cube_list(n, 4).prop_map(Op::FromSop).boxed()));
     v.push((1, crate::sopx::arb_cube_list(n, 4).prop_map(Op::FromEsop).boxed()));
     v.push((1, vec(crate::sopx::arb_eb(n), 0..=4).prop_map(Op::FromSoes).boxed()));
+    if n <= 3 {
+        // the item a complete run ends with, through each consuming adaptor of the library's iterator
+        v.push((1, (0u8..6).prop_map(Op::AllFunctionsConsume).boxed()));
+    }
     if o.random {
         v.push((3, Just(Op::Random).boxed()));
     }
